@@ -19,7 +19,7 @@ def attributeTo (cv : Variant) (W : World) (q : Query) (cur : QResult) : Option 
 /-- Generic handler for the verification properties: runs every query through the model under
 the current variant, compares verdict (ok / not ok) and tip with the implementation, and
 evaluates `spec W q impl` (the property, as a decidable predicate) on the implementation's answer. -/
-def handleWorld (spec : World → Query → QResult → Bool) (j : Json) : R Json := do
+def handleWorldX (spec : Json → Nat → World → Query → QResult → Bool) (j : Json) : R Json := do
   let inp ← field j "in"
   let W ← parseWorld (← field inp "world")
   let qs ← (← arrF inp "queries").toList.mapM parseQuery
@@ -32,6 +32,7 @@ def handleWorld (spec : World → Query → QResult → Bool) (j : Json) : R Jso
   let mut models : Array Json := #[]
   let mut nontrivial := false
   let mut notes : Array Json := #[]
+  let mut qi := 0
   for (q, impl) in qs.zip impls do
     let m := runQuery W cv q
     models := models.push m.toJson
@@ -40,7 +41,9 @@ def handleWorld (spec : World → Query → QResult → Bool) (j : Json) : R Jso
       agree := false
       notes := notes.push (Json.mkObj [("q", q.mode ++ ":" ++ q.ref), ("model", m.cls), ("impl", impl.cls)])
     if impl.cls == "ok" || impl.cls == "verif" || impl.cls == "notskipped" || impl.cls == "policy" then nontrivial := true
-    if !spec W q impl then
+    let specHere := spec j qi W q impl
+    qi := qi + 1
+    if !specHere then
       specOk := false
       notes := notes.push (Json.mkObj [("q", q.mode ++ ":" ++ q.ref), ("spec", false), ("impl", impl.cls)])
       match (if same then attributeTo cv W q m else none) with
@@ -50,5 +53,8 @@ def handleWorld (spec : World → Query → QResult → Bool) (j : Json) : R Jso
     ("id", (← field j "id")), ("agree", agree), ("spec_impl", specOk),
     ("finding", match finding, unattributed with | some f, false => Json.str f | _, _ => Json.null),
     ("model", Json.arr models), ("notes", Json.arr notes), ("nontrivial", nontrivial)]
+
+def handleWorld (spec : World → Query → QResult → Bool) (j : Json) : R Json :=
+  handleWorldX (fun _ _ W q r => spec W q r) j
 
 end Driver
